@@ -1,7 +1,7 @@
 (* C19 -- property theorems.  Statements + `exact` only; proofs live in Proofs/C19.v.
    The definitions are those of Model/C19.v, which the correspondence of harness/props/c19.py
    evaluates on every generated document next to load_mei / load_kern (check_doc, check_kern_pitch). *)
-From PV Require Import Lib.Base Model.C19 Proofs.C19 Proofs.C19_export.
+From PV Require Import Lib.Base Model.C19 Proofs.C19 Proofs.C19_export Proofs.C19_spine.
 From Coq Require Import QArith Qround Ascii.
 #[local] Open Scope Z_scope.
 
@@ -162,3 +162,28 @@ Theorem kern_roundtrip_duration : forall (D t divs' v num base : Z) (d : nat) (k
   kern_ticks divs' (kern_recip v num base) d = k /\ (inject_Z k / inject_Z divs' == inject_Z t / inject_Z D)%Q.
 Proof. exact kern_roundtrip_duration_lemma. Qed.
 Print Assumptions kern_roundtrip_duration.
+
+(* ---------------------------------------------------------------- kern spine splits *)
+
+(* the loader's line-by-line count of sub-spines agrees with what "*^" / "*v" denote on every line that holds the
+   spine's w cells with at most one split, no split together with a merge, and merges only in adjacent pairs
+   (the shape of all documents generated from abstract scores with up to two layers per staff) ... *)
+Theorem step_width_correct : forall w line,
+  Z.of_nat (List.length line) = w ->
+  count_tok is_split line <= 1 ->
+  (count_tok is_split line = 1 -> count_tok is_merge line = 0) ->
+  Forall (fun n => n = 2%nat) (merge_runs O line) ->
+  step_width w line = humdrum_width w line.
+Proof. exact step_width_correct_lemma. Qed.
+Print Assumptions step_width_correct.
+
+(* ... and not beyond: two splits of one spine on the same line, or a merge of three sub-spines, are miscounted *)
+Theorem step_width_two_splits_refuted :
+  exists w line, Z.of_nat (List.length line) = w /\ step_width w line <> humdrum_width w line.
+Proof. exact step_width_two_splits_refuted_lemma. Qed.
+Print Assumptions step_width_two_splits_refuted.
+
+Theorem step_width_triple_merge_refuted :
+  exists w line, Z.of_nat (List.length line) = w /\ count_tok is_split line = 0 /\ step_width w line <> humdrum_width w line.
+Proof. exact step_width_triple_merge_refuted_lemma. Qed.
+Print Assumptions step_width_triple_merge_refuted.
